@@ -43,7 +43,49 @@ def run(ctx: Ctx) -> Collector:
     _entity_model(ctx, c)
     _type_readers(ctx, c)
     _wrap(ctx, c)
+    _pure_parse(ctx, c)
     return c
+
+
+def _pure_parse(ctx: Ctx, c: Collector) -> None:
+    """parse_attrs classifies one model description: it only reads what it is handed.  A table of defaults (or the description itself)
+    that is filled in place is shared by every model that is parsed with it afterwards -- the explicit lists of one model become the
+    defaults of the next."""
+    from ..flow import _MUTATORS
+    fi = ctx.func(PARSE)
+    s = ctx.summ(PARSE)
+    params = {T.var(p_) for p_ in fi.params}
+    pr = []
+    for e in s.events:
+        base = None
+        if e.kind in ("store", "del") and e.term[1][0] == "idx":
+            base = e.term[1][1]
+        elif e.kind == "call" and e.term[1][0] == "attr" and e.term[1][2] in (_MUTATORS - {"get"}):
+            base = e.term[1][1]
+        if base is None:
+            continue
+        def aliases_param(v, depth=0):
+            v = T.strip(v)
+            if v in params:
+                return v
+            if depth > 4 or not isinstance(v, tuple):
+                return None
+            if v[0] in ("phi", "ifexp") and len(v) == 4:
+                return aliases_param(v[2], depth + 1) or aliases_param(v[3], depth + 1)
+            if v[0] in ("attr", "idx"):
+                return aliases_param(v[1], depth + 1)
+            if v[0] == "var":
+                for b in s.of_kind("bind"):
+                    if b.term[1] == v and b.idx < e.idx:
+                        r_ = aliases_param(b.term[2], depth + 1)
+                        if r_ is not None:
+                            return r_
+            return None
+        h = aliases_param(base)
+        hit = [h] if h is not None else []
+        if hit:
+            pr.append(f"{T.show(e.term)[:60]} (line {e.lineno}) changes an object that was passed in ({T.show(hit[0])}): what one model lists explicitly is still there when the next model is parsed")
+    c.add("args", PARSE, "parse_attrs only reads its arguments", VIOLATED if pr else DISCHARGED, "; ".join(sorted(set(pr))[:3]), fi.loc)
 
 
 def _wrap(ctx: Ctx, c: Collector) -> None:
